@@ -26,9 +26,9 @@ def make_copy(repo, scratch, groups):
     return dst, None
 
 
-def run_harnesses(crate, names, timeout_s, jobs, extra=(), playback=False):
+def run_harnesses(crate, names, timeout_s, jobs, extra=(), playback=False, features=()):
     out_json = os.path.join(crate, "..", f"kani-out-{int(time.time() * 1000)}.json")
-    cmd = ["cargo", "kani", "--no-default-features", "-Z", "unstable-options", "-Z", "function-contracts", "-Z", "stubbing",
+    cmd = ["cargo", "kani", "--no-default-features"] + (["--features", ",".join(features)] if features else []) + ["-Z", "unstable-options", "-Z", "function-contracts", "-Z", "stubbing",
            "--harness-timeout", f"{timeout_s}s", "--output-format", "terse", "--export-json", out_json, "--exact"]
     if jobs > 1 and not playback:
         cmd += ["-j", str(jobs)]
@@ -64,6 +64,7 @@ def decide(prop, tier, seed, scratch, repo, need_witness_for=()):
     # harness selection for this property/tier
     sel = []
     need_units = set(v["unit"] for v in need_witness_for if v.get("unit"))
+    need_fns = [v.get("function", "") for v in need_witness_for]
     for g in groups:
         for h in registry.KANI_GROUPS[g]["harnesses"]:
             if prop not in h.get("props", [prop]):
@@ -76,91 +77,99 @@ def decide(prop, tier, seed, scratch, repo, need_witness_for=()):
     for g, G in registry.KANI_GROUPS.items():
         for h in G["harnesses"]:
             if need_units & set(h.get("witness_units", [])) and not any(h2["name"] == h["name"] for _, h2 in sel):
-                sel.append((g, dict(h, role="witness-only")))
+                # a harness may be tied to particular functions of its unit (witness_fns); a lost proof script ("<unit>") matches all
+                wf = h.get("witness_fns")
+                if wf and not any(f == "<unit>" or any(w in f for w in wf) for f in need_fns):
+                    continue
+                sel.append((g, dict(h, role="witness-only", timeout=min(h.get("timeout", 300), 420))))
     if not sel:
         return obligations, violations, undecided, info
     crate, err = make_copy(repo, scratch, sorted(set(g for g, _ in sel)))
     if err:
         undecided.append(err)
         return obligations, violations, undecided, info
-    by_name = {}
-    for g, h in sel:
-        full = registry.KANI_GROUPS[g]["module"] + "::" + h["name"]
-        by_name[full] = (g, h)
-    tmo = max(h.get("timeout", 300) for _, h in sel)
-    jobs = int(os.environ.get("VERIF_KANI_JOBS", "6"))
-    r = run_harnesses(crate, sorted(by_name), tmo, jobs)
-    info["cmd"] = "scratch copy of /repo + kani/*.rs appended; " + re.sub(r"--export-json \S+ ", "", r["cmd"])
     info["trusted"] = ["kani 0.68.0 + cbmc 6.11.0 (bit-precise IEEE floats, machine integers)",
                        "kani harness modules are appended to a scratch copy; no existing source line is changed"]
-    data = r["json"]
-    if data is None:
-        tail = (r["stdout"][-1500:] + "\n" + r["stderr"][-2500:]).strip()
-        undecided.append(f"kani: no result file (rc={r['rc']}): {tail}")
-        return obligations, violations, undecided, info
-    results = {x["harness_id"]: x for x in data["verification_results"]["results"]}
-    pdet = {x["harness_id"]: x["property_details"] for x in data.get("property_details", [])}
-    cb = {x["harness_id"]: x for x in data.get("cbmc", [])}
-    failed = []
-    for full, (g, h) in sorted(by_name.items()):
-        res = results.get(full)
-        kind = h.get("kind", "complete")
-        rec = {"obligation": f"kani::{h['name']}", "backend": "kani+cbmc(cadical)", "kind": kind}
-        if kind != "complete" or h.get("role") == "witness-only":
-            rec["bounded"] = True
-        if res is None:
-            rec["status"] = "missing"
-            undecided.append(f"kani harness {h['name']}: no result (build failure, timeout or harness no longer compiles): "
-                             + (r["stderr"][-1200:] if not results else ""))
-            obligations.append(rec)
+    jobs = int(os.environ.get("VERIF_KANI_JOBS", "6"))
+    # one cargo-kani invocation per cargo feature set (C19 runs the window harnesses with unsafe_performance)
+    parts = {}
+    for g, h in sel:
+        parts.setdefault(tuple(h.get("features", ())), []).append((g, h))
+    for feats, psel in sorted(parts.items()):
+        by_name = {}
+        for g, h in psel:
+            by_name[registry.KANI_GROUPS[g]["module"] + "::" + h["name"]] = (g, h)
+        tmo = max(h.get("timeout", 300) for _, h in psel)
+        suffix = ("[" + ",".join(feats) + "]") if feats else ""
+        r = run_harnesses(crate, sorted(by_name), tmo, jobs, features=feats)
+        info["cmd"] += ("; " if info["cmd"] else "scratch copy of /repo + kani/*.rs appended; ") + re.sub(r"--export-json \S+ ", "", r["cmd"])
+        data = r["json"]
+        if data is None:
+            tail = (r["stdout"][-1500:] + "\n" + r["stderr"][-2500:]).strip()
+            undecided.append(f"kani{suffix}: no result file (rc={r['rc']}): {tail}")
             continue
-        pd = pdet.get(full, {})
-        rec["checks"] = pd.get("total_properties", len(res.get("checks", [])))
-        rec["time_ms"] = res.get("duration_ms", 0)
-        info["solver_ms"] += res.get("duration_ms", 0)
-        if rec["checks"] == 0:
-            undecided.append(f"kani harness {h['name']}: zero checks generated (vacuous)")
-        st = res.get("status")
-        if st == "Success":
-            rec["status"] = "discharged"
-            if kind != "complete":
-                info["bounded"].append({"harness": h["name"], "bound": kind, "status": "passed", "checks": rec["checks"]})
-        else:
-            bad = [c for c in res.get("checks", []) if c.get("status") not in ("Success", "Unreachable", "Satisfied", "Covered")]
-            real_bad = [c for c in bad if c.get("status") == "Failure"]
-            if not real_bad:
-                rec["status"] = "undetermined"
-                undecided.append(f"kani harness {h['name']}: {st} without a failed check (timeout / out of memory / unwinding): "
-                                 + "; ".join(f"{c.get('description')} [{c.get('status')}]" for c in bad[:3]))
+        results = {x["harness_id"]: x for x in data["verification_results"]["results"]}
+        pdet = {x["harness_id"]: x["property_details"] for x in data.get("property_details", [])}
+        failed = []
+        for full, (g, h) in sorted(by_name.items()):
+            res = results.get(full)
+            kind = h.get("kind", "complete")
+            rec = {"obligation": f"kani::{h['name']}{suffix}", "backend": "kani+cbmc(cadical)", "kind": kind}
+            if kind != "complete" or h.get("role") == "witness-only":
+                rec["bounded"] = True
+            if res is None:
+                rec["status"] = "missing"
+                undecided.append(f"kani harness {h['name']}{suffix}: no result (build failure, timeout or harness no longer compiles): "
+                                 + (r["stderr"][-1200:] if not results else ""))
+                obligations.append(rec)
+                continue
+            pd = pdet.get(full, {})
+            rec["checks"] = pd.get("total_properties", len(res.get("checks", [])))
+            rec["time_ms"] = res.get("duration_ms", 0)
+            info["solver_ms"] += res.get("duration_ms", 0)
+            if rec["checks"] == 0:
+                undecided.append(f"kani harness {h['name']}{suffix}: zero checks generated (vacuous)")
+            st = res.get("status")
+            if st == "Success":
+                rec["status"] = "discharged"
+                if kind != "complete":
+                    info["bounded"].append({"harness": h["name"] + suffix, "bound": kind, "status": "passed", "checks": rec["checks"]})
             else:
-                rec["status"] = "failed"
-                errs = [{"message": c.get("description", ""), "clause": f"{c.get('location', {}).get('file')}:{c.get('location', {}).get('line')} in {c.get('function')}",
-                         "function": h["name"], "kind": "verification"} for c in real_bad[:6]]
-                failed.append((full, g, h, errs))
-            if kind != "complete":
-                info["bounded"].append({"harness": h["name"], "bound": kind, "status": rec["status"], "checks": rec["checks"]})
-        obligations.append(rec)
-    # counterexamples for failed harnesses
-    for full, g, h, errs in failed:
-        w = playback(crate, full, h, tmo)
-        viol = {"obligation": f"kani::{h['name']}", "unit": None, "harness": h["name"], "function": h["name"], "backend": "kani+cbmc",
-                "hint_only": False, "errors": errs, "witness": w}
-        info["witnesses"][h["name"]] = {"witness": w, "units": h.get("witness_units", [])}
-        if h.get("role") == "witness-only":
-            continue  # only used to arbitrate / illustrate Verus failures
-        violations.append(viol)
+                bad = [c for c in res.get("checks", []) if c.get("status") not in ("Success", "Unreachable", "Satisfied", "Covered")]
+                real_bad = [c for c in bad if c.get("status") == "Failure"]
+                if not real_bad:
+                    rec["status"] = "undetermined"
+                    undecided.append(f"kani harness {h['name']}{suffix}: {st} without a failed check (timeout / out of memory / unwinding): "
+                                     + "; ".join(f"{c.get('description')} [{c.get('status')}]" for c in bad[:3]))
+                else:
+                    rec["status"] = "failed"
+                    errs = [{"message": c.get("description", ""), "clause": f"{c.get('location', {}).get('file')}:{c.get('location', {}).get('line')} in {c.get('function')}",
+                             "function": h["name"], "kind": "verification"} for c in real_bad[:6]]
+                    failed.append((full, g, h, errs))
+                if kind != "complete":
+                    info["bounded"].append({"harness": h["name"] + suffix, "bound": kind, "status": rec["status"], "checks": rec["checks"]})
+            obligations.append(rec)
+        # counterexamples for failed harnesses
+        for full, g, h, errs in failed:
+            w = playback(crate, full, h, tmo, feats)
+            viol = {"obligation": f"kani::{h['name']}{suffix}", "unit": None, "harness": h["name"], "function": h["name"], "backend": "kani+cbmc",
+                    "hint_only": False, "errors": errs, "witness": w}
+            info["witnesses"][h["name"] + suffix] = {"witness": w, "units": h.get("witness_units", [])}
+            if h.get("role") == "witness-only":
+                continue  # only used to arbitrate / illustrate Verus failures
+            violations.append(viol)
     return obligations, violations, undecided, info
 
 
-def playback(crate, full, h, tmo):
-    r = run_harnesses(crate, [full], tmo, 1, playback=True)
+def playback(crate, full, h, tmo, feats=()):
+    r = run_harnesses(crate, [full], tmo, 1, playback=True, features=feats)
     out = r["stdout"]
     m = re.search(r"Concrete playback unit test for `[^`]*`:\s*```\s*(.*?)```", out, re.S)
     if not m:
         return None
     test = m.group(1)
     vals = re.findall(r"//\s*(.+)\n\s*vec!\[([^\]]*)\]", test)
-    return {"harness": h["name"], "concrete_values": [{"value": v.strip(), "bytes": b.strip()} for v, b in vals],
+    return {"harness": h["name"], "features": list(feats), "concrete_values": [{"value": v.strip(), "bytes": b.strip()} for v, b in vals],
             "playback_test": test.strip()[:6000]}
 
 
